@@ -426,7 +426,7 @@ func checkHMTriple(c hmTriple) *rp.Fail {
 }
 
 func props() []rp.Prop {
-	n := ev.Pick(40000, 1000000) / ev.Shards()
+	n := ev.Pick(40000, 10000000) / ev.Shards()
 	return []rp.Prop{
 		rp.P[hmPair]{Name: "hhmm-pair", Check: decideHM},
 		rp.P[hmTriple]{Name: "hhmm-triple", Checks: n, Gen: func(t *rapid.T) hmTriple {
